@@ -22,6 +22,8 @@ import GoProbeModel.Spec.C28
 import GoProbeModel.Spec.C20
 import GoProbeModel.Spec.C27
 import GoProbeModel.Spec.C21
+import GoProbeModel.Spec.C07
+import GoProbeModel.Spec.C02
 
 /-!
 `gpjudge`: executable specs. Reads lines `<Cxx> <case fields…> => <implementation output>` and
@@ -51,5 +53,7 @@ def main : IO Unit := DriverLoop.runJudge [
   ("C28", C28.judge),
   ("C20", C20.judge),
   ("C27", C27.judge),
-  ("C21", C21.judge)
+  ("C21", C21.judge),
+  ("C07", C07.judge),
+  ("C02", C02.judge)
 ]
